@@ -466,12 +466,21 @@ def run(ck):
     hist = {}
     nontriv = lambda c: any(l.split()[0] not in ("size", "render", "dump", "rt") for l in c)
 
+    def enough():
+        # several concrete failing inputs are already minimised and recorded: stop searching
+        return len([v for v in ck.violations if v.get("kind") == "obs"]) >= 8
+
     def go(cases, label, chunk=1500):
+        if enough():
+            ck.cov.setdefault("skipped_after_violations", []).append(label)
+            return
         for c in cases:
             for l in c:
                 op = l.split()[0]
                 hist[op] = hist.get(op, 0) + 1
         for ch in vf.chunks(cases, chunk):
+            if enough():
+                break
             ck.compare_cases(hcmd, dcmd, ch, label=label, nontrivial=nontriv, monitor=monitor)
 
     go(vf.corpus_cases(PID), "corpus")
